@@ -13,7 +13,38 @@ import (
 	"net"
 )
 
+// a pool of 2^32 blocks (2001:db8::/32 carved into /64): hints and frees in its upper half
+func runHugePool(c *Ctx) {
+	p, err := mkPool6("2001:db8::/32", 64)
+	if err != nil {
+		c.Count("huge-pool:skipped")
+		return
+	}
+	in := map[string]interface{}{"pool": p.desc}
+	for _, blk := range []uint64{3 << 30, 1<<31 + 5, 1<<32 - 1, 1 << 31, 7} {
+		addr := new(big.Int).Add(p.base, new(big.Int).Lsh(new(big.Int).SetUint64(blk), p.shift))
+		ip := make(net.IP, 16)
+		addr.FillBytes(ip)
+		hint := net.IPNet{IP: ip, Mask: net.CIDRMask(64, 128)}
+		n, err := p.a.Allocate(hint)
+		c.Evals++
+		got, inside := uint64(0), false
+		if err == nil {
+			got, inside = p.blockOf(n.IP)
+		}
+		if err != nil || !inside || got != blk {
+			c.vio("C07", "hint-not-honoured", fmt.Sprintf("pool of 2^32 blocks: Allocate(hint block %d, free) returned %v (error %v)", blk, n.IP, err), in)
+			continue
+		}
+		if err := p.a.Free(hint); err != nil {
+			c.vio("C06", "free-outstanding-fails", fmt.Sprintf("pool of 2^32 blocks: Free of the outstanding block %d fails: %v", blk, err), in)
+		}
+	}
+	c.Count("huge-pool:2^32-blocks")
+}
+
 func runBigPools(c *Ctx) {
+	runHugePool(c)
 	type bp struct {
 		p   *pool
 		err error
